@@ -440,7 +440,7 @@ macro_rules! hv_to_pairs {
     };
 }
 
-async fn drive<'a, F>(futs: Vec<(usize, usize, F)>, shards: usize, cfg: &HybridCfg) -> (Vec<Vec<Option<HelperOutcome>>>, bool)
+pub async fn drive<'a, F>(futs: Vec<(usize, usize, F)>, shards: usize, cfg: &HybridCfg) -> (Vec<Vec<Option<HelperOutcome>>>, bool)
 where
     F: std::future::Future<Output = Result<Vec<(u128, u128)>, Error>> + 'a,
 {
